@@ -477,3 +477,18 @@ package codecs
 //@ spec (*VP9Packet).IsPartitionHead
 //@   ensures b_bit [C12,C09]: result0 <==> (len(payload) >= 1 && bits(payload[0], 3, 3) == 1)
 //@ end
+
+// ===== C09: the deprecated AV1Packet never panics on any payload =====
+//@ spec (*AV1Packet).parseBody
+//@   requires p != nil
+//@   loop 0: invariant walk [C09]: currentIndex <= len(payload) && 1 <= i && i <= int(currentIndex) + 1 && len(obuElements) >= 0 && fresh(obuElements)
+//@   loop 0: decreases 2 * (len(payload) - int(currentIndex)) + ite(bits(byte(i), 7, 0) == int(p.W), 0, 1)
+//@   ensures cached [C09]: old(p.OBUElements) != nil ==> result1 == nil && sameobj(result0, old(p.OBUElements))
+//@ end
+//@ spec (*AV1Packet).Unmarshal
+//@   modifies p.Z, p.Y, p.N, p.W, p.OBUElements
+//@   ensures nilpacket [C09]: payload == nil ==> errIs(result1, errNilPacket)
+//@   ensures short [C09]: payload != nil && len(payload) < 2 ==> errIs(result1, errShortPacket)
+//@   ensures flags [C09,C13]: result1 == nil ==> (p.Z <==> bits(payload[0], 7, 7) == 1) && (p.Y <==> bits(payload[0], 6, 6) == 1) && int(p.W) == bits(payload[0], 5, 4) && (p.N <==> bits(payload[0], 3, 3) == 1) && !(p.Z && p.N)
+//@   ensures rest [C09]: result1 == nil ==> sameobj(result0, payload) && off(result0) == off(payload) + 1 && len(result0) == len(payload) - 1
+//@ end
